@@ -11,11 +11,15 @@
 //!  c   every single edit at every token position of every repo parse/compile test file
 //!  d   every include digraph over <= 3 in-memory files, plus include chains around the
 //!      depth limit, through an in-memory `SourceResolver`
+//!  e   every string of <= K characters of {a, b, -, ., \, 1} as the glyph operand of each of a
+//!      few statement templates, each parsed without a glyph map and with each of a few small
+//!      glyph maps (names with hyphens, names that end / start with a hyphen): drives the
+//!      name-or-range disambiguation (`validate_token` / `try_split_range`)
 //!
 //! `c13 quick|thorough`, `c13 --replay <path>`; `c13 --one <case.json>` is the single-case
 //! subprocess used for classification, shrinking and replay.
 use fea_rs::{
-    DiagnosticSet, GlyphMap, Kind, ParseTree,
+    DiagnosticSet, GlyphIdent, GlyphMap, Kind, Node, NodeOrToken, ParseTree,
     compile::{NopVariationInfo, validate},
     parse::{SourceLoadError, parse_root, parse_string},
 };
@@ -44,6 +48,34 @@ const LEXEMES: [&str; 28] = [
 /// Character alphabet of sub-space b.
 const CHARS: [&str; 18] = [
     "a", "A", "-", ".", "\\", "@", "[", "'", "\"", "<", "#", "\n", "0", "\u{e9}", "\u{1F600}", "\t", " ", ";",
+];
+
+/// Character alphabet of the glyph operand of sub-space e.
+const OPERAND_CHARS: [&str; 6] = ["a", "b", "-", ".", "\\", "1"];
+
+/// Statement templates of sub-space e; every `X` is the operand. Rules only parse inside a
+/// feature block (at top level `pos` is an unexpected token and the operand is never in a
+/// glyph position).
+const OPERAND_TEMPLATES: [&str; 9] = [
+    "feature f {pos X 0;} f;",
+    "feature f {sub X by a;} f;",
+    "feature f {sub a by X;} f;",
+    "@c = [X];",
+    "feature f {sub [X] by a;} f;",
+    "feature f {sub X' a by b;} f;",
+    "feature f {pos X X 0;} f;",
+    "feature f {sub a from [X];} f;",
+    "@c = [a X b];",
+];
+
+/// Glyph maps of sub-space e (`None`: parsed without a glyph map). A name of the form `\N` is
+/// the CID N.
+const OPERAND_MAPS: [Option<&[&str]>; 5] = [
+    Some(&["a", "b"]),
+    Some(&["a", "b", "a-b"]),
+    Some(&["a", "b", "a-", "-a"]),
+    Some(&["a", "b", "a-b", "b-a", "a-", "-a", "a.b", "a1", "a-a-a", "\\1", "\\11"]),
+    None,
 ];
 
 const WRAP_PRE: &str = "feature test {\n";
@@ -122,6 +154,32 @@ struct Case {
     expect: Expect,
     /// short description for graph cases
     desc: String,
+    /// `None`: the default pair of runs (the big glyph map of `Ctx`, then no glyph map);
+    /// otherwise one run per entry (`None` = without a glyph map, else these glyph names)
+    maps: Option<Vec<Option<Vec<String>>>>,
+}
+
+/// The glyph-map list of sub-space e.
+fn operand_maps() -> Vec<Option<Vec<String>>> {
+    OPERAND_MAPS
+        .iter()
+        .map(|m| m.map(|names| names.iter().map(|n| n.to_string()).collect()))
+        .collect()
+}
+
+/// Short name of a glyph-map list (part of memo keys and of the evidence).
+fn maps_tag(maps: &Option<Vec<Option<Vec<String>>>>) -> String {
+    match maps {
+        None => "default".into(),
+        Some(l) => l
+            .iter()
+            .map(|m| match m {
+                None => "none".to_string(),
+                Some(n) => format!("{{{}}}", n.join(",")),
+            })
+            .collect::<Vec<_>>()
+            .join("|"),
+    }
 }
 
 impl Case {
@@ -134,7 +192,14 @@ impl Case {
             }],
             expect: Expect::Plain,
             desc: String::new(),
+            maps: None,
         }
+    }
+    /// a plain case with the glyph maps of `self`
+    fn with_text(&self, text: String) -> Case {
+        let mut c = Case::plain(text);
+        c.maps = self.maps.clone();
+        c
     }
     fn root_text(&self) -> &str {
         &self.files[0].text
@@ -148,6 +213,7 @@ impl Case {
             "root": self.files[0].name,
             "expect": self.expect.name(),
             "desc": self.desc,
+            "glyph_maps": self.maps,
             "files": self.files.iter().map(|f| json!({
                 "name": f.name, "text": f.text,
                 "includes": f.includes.iter().map(|i| json!([i.start, i.end, i.target])).collect::<Vec<_>>(),
@@ -179,19 +245,30 @@ impl Case {
                 });
             }
         }
+        // absent or null: the default runs; else a list of null / list of names
+        let maps: Option<Vec<Option<Vec<String>>>> = v.get("glyph_maps").and_then(|m| m.as_array()).map(|l| {
+            l.iter()
+                .map(|m| m.as_array().map(|n| n.iter().filter_map(|x| x.as_str().map(|s| s.to_string())).collect()))
+                .collect()
+        });
         if files.is_empty() {
             // a hand-written replay file may carry just the text
-            return Some(Case::plain(v.get("input")?.as_str()?.to_string()));
+            let mut c = Case::plain(v.get("input")?.as_str()?.to_string());
+            c.maps = maps;
+            return Some(c);
         }
         Some(Case {
+            maps,
             files,
             expect: Expect::from_name(v.get("expect").and_then(|e| e.as_str()).unwrap_or("plain")),
             desc: v.get("desc").and_then(|e| e.as_str()).unwrap_or("").to_string(),
         })
     }
     fn memo_key(&self) -> String {
-        if self.is_plain() {
+        if self.is_plain() && self.maps.is_none() {
             format!("P{}", self.files[0].text)
+        } else if self.is_plain() {
+            format!("M{}\u{0}{}", maps_tag(&self.maps), self.files[0].text)
         } else {
             self.to_json().to_string()
         }
@@ -409,6 +486,7 @@ enum Space {
     Chars { m: usize },
     Edits(Corpus),
     Graphs { max_depth: usize },
+    Operand { k: usize },
 }
 
 fn pow_sum(base: u64, n: usize) -> u64 {
@@ -440,6 +518,7 @@ impl Space {
             Space::Chars { .. } => "b",
             Space::Edits(_) => "c",
             Space::Graphs { .. } => "d",
+            Space::Operand { .. } => "e",
         }
     }
     fn arg(&self) -> String {
@@ -448,6 +527,7 @@ impl Space {
             Space::Chars { m } => m.to_string(),
             Space::Edits(c) => (c.all_ops as u8).to_string(),
             Space::Graphs { max_depth } => max_depth.to_string(),
+            Space::Operand { k } => k.to_string(),
         }
     }
     fn from_worker(name: &str, arg: &str) -> Space {
@@ -457,6 +537,7 @@ impl Space {
             "aw" => Space::Seq { n, wrapped: true },
             "b" => Space::Chars { m: n },
             "c" => Space::Edits(Corpus::load(n != 0)),
+            "e" => Space::Operand { k: n },
             _ => Space::Graphs { max_depth: n },
         }
     }
@@ -466,6 +547,7 @@ impl Space {
             Space::Chars { m } => pow_sum(CHARS.len() as u64, *m),
             Space::Edits(c) => c.total(),
             Space::Graphs { max_depth } => 512 * GRAPH_VARIANTS + 2 * (*max_depth as u64 + 2),
+            Space::Operand { k } => pow_sum(OPERAND_CHARS.len() as u64, *k) * OPERAND_TEMPLATES.len() as u64,
         }
     }
     fn case(&self, idx: u64) -> Case {
@@ -490,6 +572,15 @@ impl Space {
                 k
             }
             Space::Graphs { max_depth } => graph_case(idx, *max_depth),
+            Space::Operand { .. } => {
+                let nt = OPERAND_TEMPLATES.len() as u64;
+                let d = decode_seq(idx / nt, OPERAND_CHARS.len() as u64);
+                let operand: String = d.iter().map(|i| OPERAND_CHARS[*i]).collect();
+                let mut c = Case::plain(OPERAND_TEMPLATES[(idx % nt) as usize].replace('X', &operand));
+                c.desc = format!("operand {operand:?}");
+                c.maps = Some(operand_maps());
+                c
+            }
         }
     }
 }
@@ -578,6 +669,7 @@ fn graph_case(idx: u64, max_depth: usize) -> Case {
             files,
             expect: if cyc { Expect::MustError } else { Expect::MustNotError },
             desc,
+            maps: None,
         }
     } else {
         // chain f0 -> f1 -> ... with `depth` nested include statements
@@ -601,6 +693,7 @@ fn graph_case(idx: u64, max_depth: usize) -> Case {
             files,
             expect,
             desc: format!("chain depth={depth};scope={}", if in_feature { "feature" } else { "top" }),
+            maps: None,
         }
     }
 }
@@ -690,7 +783,18 @@ fn guarded<T>(f: impl FnOnce() -> T) -> Result<T, (String, String)> {
 
 struct Ctx {
     full: GlyphMap,
+    /// the names of `full`, for the oracle's own name-or-range model
+    full_names: HashSet<String>,
     empty: GlyphMap,
+}
+
+/// A glyph map from names; `\N` is the CID N.
+fn make_glyph_map(names: &[String]) -> GlyphMap {
+    GlyphMap::new(names.iter().map(|n| match n.strip_prefix('\\').and_then(|c| c.parse::<u16>().ok()) {
+        Some(cid) => GlyphIdent::Cid(cid),
+        None => GlyphIdent::from(n.as_str()),
+    }))
+    .unwrap_or_else(|e| vcore::machinery_error(&format!("glyph map: {e}")))
 }
 
 impl Ctx {
@@ -713,7 +817,7 @@ impl Ctx {
         let full = GlyphMap::new(names.iter().map(|s| s.as_str()))
             .unwrap_or_else(|e| vcore::machinery_error(&format!("glyph map: {e}")));
         let empty = GlyphMap::new(Vec::<&str>::new()).unwrap_or_default();
-        Ctx { full, empty }
+        Ctx { full, full_names: names.into_iter().collect(), empty }
     }
 }
 
@@ -725,6 +829,19 @@ struct Judgement {
     error_free: bool,
     validations: u32,
     diags: u32,
+    /// front-end runs (parses) of this case
+    parses: u32,
+    /// name-or-range disambiguation, summed over the runs with a glyph map: tokens that are
+    /// `GlyphNameOrRange` without a glyph map, and what the glyph map made of them
+    amb_tokens: u32,
+    amb_kept_name: u32,
+    amb_split: u32,
+    amb_no_solution: u32,
+    amb_several_solutions: u32,
+    /// some tree of the case has a `GlyphRange` node
+    has_range_node: bool,
+    /// some tree of the case has an ambiguous token (no glyph map) / a range node made by the glyph map
+    has_amb_token: bool,
 }
 
 impl Judgement {
@@ -818,11 +935,249 @@ fn expected_text(case: &Case, skipped: &HashSet<(usize, usize)>) -> Result<Strin
     Ok(out)
 }
 
+/// One token of a tree: kind and position in the concatenated token texts.
+#[derive(Clone, Copy)]
+struct Tok {
+    kind: Kind,
+    start: usize,
+    len: usize,
+}
+
+/// What the oracle reads off one tree.
+#[derive(Default)]
+struct Walk {
+    /// concatenation of the token texts in `iter_tokens` order
+    joined: String,
+    toks: Vec<Tok>,
+    /// `GlyphRange` nodes: (index of the first token below it, number of tokens below it)
+    ranges: Vec<(usize, usize)>,
+    /// tokens that are not whitespace / comment
+    ntok: usize,
+    good_node: bool,
+    /// first token or node whose recorded position is not the sum of the text lengths before it
+    misplaced: Option<String>,
+    /// the recursive descent over `iter_children` met other tokens than `iter_tokens`
+    iter_mismatch: bool,
+}
+
+impl Walk {
+    fn text(&self, i: usize) -> &str {
+        let t = &self.toks[i];
+        &self.joined[t.start..t.start + t.len]
+    }
+}
+
+fn walk_node(n: &Node, w: &mut Walk, off: &mut usize, check_pos: bool) {
+    for c in n.iter_children() {
+        match c {
+            NodeOrToken::Token(t) => {
+                let len = t.as_str().len();
+                if check_pos && w.misplaced.is_none() && t.range() != (*off..*off + len) {
+                    w.misplaced = Some(format!("token {:?} ({}) says range {:?} but the texts before it have {} bytes", t.as_str(), t.kind, t.range(), *off));
+                }
+                w.toks.push(Tok { kind: t.kind, start: *off, len });
+                *off += len;
+            }
+            NodeOrToken::Node(m) => {
+                let (first, start) = (w.toks.len(), *off);
+                walk_node(m, w, off, check_pos);
+                if check_pos && w.misplaced.is_none() && m.range() != (start..*off) {
+                    w.misplaced = Some(format!("node {} says range {:?} but its tokens span {:?}", m.kind(), m.range(), start..*off));
+                }
+                if m.kind() == Kind::GlyphRange {
+                    w.ranges.push((first, w.toks.len() - first));
+                }
+            }
+        }
+    }
+}
+
+fn walk_tree(tree: &ParseTree, check_pos: bool) -> Walk {
+    let mut w = Walk::default();
+    for t in tree.root().iter_tokens() {
+        w.joined.push_str(t.as_str());
+        if !matches!(t.kind, Kind::Whitespace | Kind::Comment) {
+            w.ntok += 1;
+        }
+    }
+    w.good_node = tree.root().iter_children().any(|c| c.as_node().is_some_and(|n| !n.error));
+    let mut off = 0;
+    walk_node(tree.root(), &mut w, &mut off, check_pos);
+    // the descent must have met the same texts in the same order
+    let mut at = 0;
+    let mut n = 0;
+    for t in tree.root().iter_tokens() {
+        if n >= w.toks.len() || w.toks[n].start != at || w.toks[n].len != t.as_str().len() {
+            w.iter_mismatch = true;
+            break;
+        }
+        at += t.as_str().len();
+        n += 1;
+    }
+    if n != w.toks.len() {
+        w.iter_mismatch = true;
+    }
+    w
+}
+
+/// The effect of the glyph map on the tokens, judged against the oracle's own model of the
+/// name-or-range rule (feature file syntax 2.g.ii: a name with hyphens that is a glyph of the
+/// font is that glyph; otherwise it is a range if it can be cut at ONE hyphen into two glyphs
+/// of the font; anything else is an error): `w0` is the tree parsed without a glyph map, `w1`
+/// the one parsed with the glyph map whose names `known` answers for. Every token must be the
+/// same in both, except that a `GlyphNameOrRange` token becomes a `GlyphName` (known name), a
+/// `GlyphRange` node of exactly name, hyphen, name spelling the token (one cut), or stays as it
+/// is under an error diagnostic (no cut, several cuts).
+fn check_map_effect(
+    w0: &Walk,
+    w1: &Walk,
+    known: &dyn Fn(&str) -> bool,
+    err_spans: Option<&[std::ops::Range<usize>]>,
+    cfg: &str,
+    j: &mut Judgement,
+) {
+    let (mut i, mut k) = (0usize, 0usize);
+    while i < w0.toks.len() {
+        let (t0, s0) = (w0.toks[i], w0.text(i));
+        if k >= w1.toks.len() {
+            j.fail("glyph-map-changes-tokens", format!("[{cfg}] the tree has fewer tokens than the one parsed without a glyph map (missing from {s0:?} at byte {})", t0.start));
+            return;
+        }
+        let (t1, s1) = (w1.toks[k], w1.text(k));
+        if t0.kind != Kind::GlyphNameOrRange {
+            if s0 != s1 || t0.kind != t1.kind {
+                j.fail(
+                    "glyph-map-changes-tokens",
+                    format!("[{cfg}] token {s0:?} ({}) at byte {} of the tree parsed without a glyph map is {s1:?} ({}) with it", t0.kind, t0.start, t1.kind),
+                );
+                return;
+            }
+            i += 1;
+            k += 1;
+            continue;
+        }
+        j.amb_tokens += 1;
+        if known(s0) {
+            if s1 != s0 {
+                j.fail("known-name-split", format!("[{cfg}] {s0:?} is a glyph of the glyph map but the tree has the token {s1:?} in its place"));
+                return;
+            }
+            if t1.kind != Kind::GlyphName {
+                j.fail("known-name-kind", format!("[{cfg}] {s0:?} is a glyph of the glyph map but its token has kind {}", t1.kind));
+                return;
+            }
+            j.amb_kept_name += 1;
+            i += 1;
+            k += 1;
+            continue;
+        }
+        let cuts: Vec<usize> = s0
+            .bytes()
+            .enumerate()
+            .filter(|(p, b)| *b == b'-' && known(&s0[..*p]) && known(&s0[*p + 1..]))
+            .map(|(p, _)| p)
+            .collect();
+        if cuts.len() == 1 {
+            let (head, tail) = (&s0[..cuts[0]], &s0[cuts[0] + 1..]);
+            let ok = k + 2 < w1.toks.len()
+                && w1.text(k) == head
+                && w1.text(k + 1) == "-"
+                && w1.text(k + 2) == tail
+                && w1.toks[k].kind == Kind::GlyphName
+                && w1.toks[k + 1].kind == Kind::Hyphen
+                && w1.toks[k + 2].kind == Kind::GlyphName
+                && w1.ranges.contains(&(k, 3));
+            if !ok {
+                let got: Vec<String> = (k..(k + 3).min(w1.toks.len())).map(|x| format!("{:?} ({})", w1.text(x), w1.toks[x].kind)).collect();
+                j.fail(
+                    "range-split-wrong",
+                    format!("[{cfg}] {s0:?} is not a glyph and has exactly one cut into glyphs ({head:?} - {tail:?}); expected a GlyphRange node of these, found {}", got.join(" ")),
+                );
+                return;
+            }
+            j.amb_split += 1;
+            i += 1;
+            k += 3;
+            continue;
+        }
+        if s1 != s0 {
+            j.fail(
+                "range-split-unexpected",
+                format!("[{cfg}] {s0:?} is not a glyph and has {} cuts into two glyphs of the glyph map, but the tree has {s1:?} in its place", cuts.len()),
+            );
+            return;
+        }
+        if t1.kind != Kind::GlyphNameOrRange {
+            j.fail("ambiguous-name-kind", format!("[{cfg}] {s0:?} is neither a glyph nor a range (cuts: {}) but its token has kind {}", cuts.len(), t1.kind));
+            return;
+        }
+        if let Some(errs) = err_spans {
+            if !errs.iter().any(|r| r.start < t1.start + t1.len && t1.start < r.end) {
+                j.fail(
+                    "ambiguous-name-no-error",
+                    format!("[{cfg}] {s0:?} is neither a glyph nor a range of glyphs (cuts: {}) and no error diagnostic covers it", cuts.len()),
+                );
+                return;
+            }
+        }
+        if cuts.is_empty() {
+            j.amb_no_solution += 1;
+        } else {
+            j.amb_several_solutions += 1;
+        }
+        i += 1;
+        k += 1;
+    }
+    if k != w1.toks.len() {
+        j.fail("glyph-map-changes-tokens", format!("[{cfg}] the tree has {} tokens more than the one parsed without a glyph map", w1.toks.len() - k));
+    }
+}
+
+/// One front-end configuration of a case.
+struct RunCfg<'a> {
+    label: String,
+    gm: Option<&'a GlyphMap>,
+    names: Option<&'a HashSet<String>>,
+}
+
 fn judge(case: &Case, ctx: &Ctx, parse_only: bool) -> Judgement {
     let mut j = Judgement::default();
     // the compiler's own pipeline (parse with the glyph map, validate with it) first; what
     // only happens when a tree parsed without a glyph map is validated is a class of its own
-    for (cfg, gm) in [("glyph-map", Some(&ctx.full)), ("no-glyph-map", None)] {
+    let own: Vec<(String, GlyphMap, HashSet<String>)> = case
+        .maps
+        .iter()
+        .flatten()
+        .flatten()
+        .map(|names| (format!("glyph-map{{{}}}", names.join(",")), make_glyph_map(names), names.iter().cloned().collect()))
+        .collect();
+    let mut cfgs: Vec<RunCfg> = vec![];
+    match &case.maps {
+        None => {
+            cfgs.push(RunCfg { label: "glyph-map".into(), gm: Some(&ctx.full), names: Some(&ctx.full_names) });
+            cfgs.push(RunCfg { label: "no-glyph-map".into(), gm: None, names: None });
+        }
+        Some(l) => {
+            for (label, gm, names) in &own {
+                cfgs.push(RunCfg { label: label.clone(), gm: Some(gm), names: Some(names) });
+            }
+            if l.iter().any(|m| m.is_none()) {
+                cfgs.push(RunCfg { label: "no-glyph-map".into(), gm: None, names: None });
+            }
+        }
+    }
+    // the glyph map a tree parsed without one is validated with (besides the empty one)
+    let big: (&str, &GlyphMap) = match (&case.maps, own.iter().max_by_key(|o| o.2.len())) {
+        (Some(_), Some(o)) => ("largest", &o.1),
+        _ => ("full", &ctx.full),
+    };
+    let plain = case.is_plain();
+    // (cfg index, walk, spans of the error diagnostics) of the runs with a glyph map
+    let mut mapped: Vec<(usize, Walk, Vec<std::ops::Range<usize>>)> = vec![];
+    for (ci, rc) in cfgs.iter().enumerate() {
+        let (cfg, gm) = (rc.label.as_str(), rc.gm);
+        let class = if gm.is_some() { "glyph-map" } else { "no-glyph-map" };
+        j.parses += 1;
         let parsed = match guarded(|| do_parse(case, gm)) {
             Err((file, msg)) => {
                 j.fail(format!("panic:parse:{file}"), format!("[{cfg}] parser {msg}"));
@@ -835,22 +1190,7 @@ fn judge(case: &Case, ctx: &Ctx, parse_only: bool) -> Judgement {
             Ok(Ok(p)) => p,
         };
         let (tree, diags) = parsed;
-        let walked = guarded(|| {
-            let mut joined = String::new();
-            let mut ntok = 0usize;
-            for t in tree.root().iter_tokens() {
-                joined.push_str(t.as_str());
-                if !matches!(t.kind, Kind::Whitespace | Kind::Comment) {
-                    ntok += 1;
-                }
-            }
-            let good_node = tree
-                .root()
-                .iter_children()
-                .any(|c| c.as_node().is_some_and(|n| !n.error));
-            (joined, ntok, good_node)
-        });
-        let (joined, ntok, good_node) = match walked {
+        let w = match guarded(|| walk_tree(&tree, plain)) {
             Ok(w) => w,
             Err((file, msg)) => {
                 j.fail(format!("panic:walk:{file}"), format!("[{cfg}] walking the tree {msg}"));
@@ -858,13 +1198,21 @@ fn judge(case: &Case, ctx: &Ctx, parse_only: bool) -> Judgement {
             }
         };
         if gm.is_none() {
-            j.nontrivial = good_node || ntok >= 2;
+            j.nontrivial = w.good_node || w.ntok >= 2;
+            j.has_amb_token |= w.toks.iter().any(|t| t.kind == Kind::GlyphNameOrRange);
+        }
+        j.has_range_node |= !w.ranges.is_empty();
+        if w.iter_mismatch {
+            j.fail("iter-tokens-mismatch", format!("[{cfg}] iter_tokens and a descent over iter_children give different token sequences"));
+        }
+        if let Some(m) = &w.misplaced {
+            j.fail(format!("position:{class}"), format!("[{cfg}] {m}"));
         }
         check_diags(&tree, &diags, "parse", cfg, &mut j);
 
         // which generated include statements were refused?
         let mut skipped = HashSet::new();
-        if !case.is_plain() {
+        if !plain {
             for d in diags.diagnostics().iter().filter(|d| d.is_error()) {
                 let Some(src) = tree.get_source(d.message.file) else {
                     continue;
@@ -883,17 +1231,18 @@ fn judge(case: &Case, ctx: &Ctx, parse_only: bool) -> Judgement {
         match expected_text(case, &skipped) {
             Err(e) => j.fail("include-expansion-unbounded", format!("[{cfg}] {e}")),
             Ok(want) => {
-                if joined != want {
-                    let at = joined
+                if w.joined != want {
+                    let at = w
+                        .joined
                         .bytes()
                         .zip(want.bytes())
                         .position(|(a, b)| a != b)
-                        .unwrap_or(joined.len().min(want.len()));
+                        .unwrap_or(w.joined.len().min(want.len()));
                     j.fail(
-                        "lossy",
+                        format!("not-lossless:{class}"),
                         format!(
                             "[{cfg}] token texts concatenate to {} bytes, expected {} bytes; first difference at byte {at}",
-                            joined.len(),
+                            w.joined.len(),
                             want.len()
                         ),
                     );
@@ -924,15 +1273,22 @@ fn judge(case: &Case, ctx: &Ctx, parse_only: bool) -> Judgement {
         }
         if gm.is_none() {
             j.error_free = !has_err;
+            // the runs with a glyph map against this one
+            for (mi, w1, errs) in &mapped {
+                let rc1 = &cfgs[*mi];
+                let Some(names) = rc1.names else { continue };
+                check_map_effect(&w, w1, &|s: &str| names.contains(s), plain.then_some(errs.as_slice()), &rc1.label, &mut j);
+            }
+        } else {
+            let errs = diags.diagnostics().iter().filter(|d| d.is_error()).map(|d| d.span()).collect();
+            mapped.push((ci, w, errs));
         }
         if has_err || parse_only {
             continue;
         }
-        let maps: &[(&str, &GlyphMap)] = if gm.is_none() {
-            &[("empty", &ctx.empty), ("full", &ctx.full)]
-        } else {
-            &[("full", &ctx.full)]
-        };
+        let own_map = [(cfg, gm.unwrap_or(&ctx.empty))];
+        let mapless = [("empty", &ctx.empty), big];
+        let maps: &[(&str, &GlyphMap)] = if gm.is_none() { &mapless } else { &own_map };
         let stage = if gm.is_none() { "validate-mapless" } else { "validate" };
         for (mname, m) in maps {
             j.validations += 1;
@@ -1051,6 +1407,7 @@ fn run_worker(name: &str, arg: &str) -> ! {
     let ctx = Ctx::new();
     let want_hashes = matches!(space, Space::Edits(_) | Space::Graphs { .. });
     let is_chars = matches!(space, Space::Chars { .. });
+    let is_operand = matches!(space, Space::Operand { .. });
     let total = space.total();
     let stride = stride_for(total);
     TICKET_LIMIT_MS.store(WORKER_STALL_MS, std::sync::atomic::Ordering::SeqCst);
@@ -1063,6 +1420,7 @@ fn run_worker(name: &str, arg: &str) -> ! {
         let mut hashes: Vec<u64> = vec![];
         let mut slow = (0u64, 0u64);
         let mut chain_status: Vec<Value> = vec![];
+        let mut ctr: BTreeMap<&'static str, u64> = BTreeMap::new();
         for pos in lo..hi {
             progress.begin(pos);
             TICKET.store(pos + 1, std::sync::atomic::Ordering::SeqCst);
@@ -1083,7 +1441,23 @@ fn run_worker(name: &str, arg: &str) -> ! {
             } else {
                 false
             };
-            if j.nontrivial && !dup_of_other_space {
+            for (k, v) in [
+                ("front_end_runs", j.parses as u64),
+                ("ambiguous_tokens_x_glyph_maps", j.amb_tokens as u64),
+                ("kept_as_known_glyph_name", j.amb_kept_name as u64),
+                ("split_into_range_by_glyph_map", j.amb_split as u64),
+                ("left_ambiguous_no_cut", j.amb_no_solution as u64),
+                ("left_ambiguous_several_cuts", j.amb_several_solutions as u64),
+                ("inputs_with_range_node", j.has_range_node as u64),
+                ("inputs_with_ambiguous_token", j.has_amb_token as u64),
+                ("inputs_split_by_glyph_map", (j.amb_split > 0) as u64),
+            ] {
+                *ctr.entry(k).or_default() += v;
+            }
+            // in e the mechanism is the name-or-range rule: an input counts when its tree has an
+            // ambiguous token or a range node
+            let nontrivial_here = if is_operand { j.has_amb_token || j.has_range_node } else { j.nontrivial };
+            if nontrivial_here && !dup_of_other_space {
                 if want_hashes {
                     hashes.push(vcore::hash64(case.memo_key().as_bytes()));
                 } else {
@@ -1120,7 +1494,7 @@ fn run_worker(name: &str, arg: &str) -> ! {
             "n": hi - lo, "nontrivial": nontrivial, "error_free": error_free,
             "validations": validations, "diags": diags, "hashes": hashes,
             "fails": fails, "details": details, "slow_us": slow.0, "slow_idx": slow.1,
-            "chains": chain_status,
+            "chains": chain_status, "ctr": ctr,
         })
     })
 }
@@ -1182,7 +1556,13 @@ fn run_show(text: &str) -> ! {
     install_hook();
     let ctx = Ctx::new();
     let case = Case::plain(text.to_string());
-    for (cfg, gm) in [("no-glyph-map", None), ("glyph-map", Some(&ctx.full))] {
+    // an optional third argument is a comma-separated glyph map
+    let extra: Option<GlyphMap> = std::env::args().nth(3).map(|l| make_glyph_map(&l.split(',').map(|x| x.to_string()).collect::<Vec<_>>()));
+    let mut cfgs = vec![("no-glyph-map", None), ("glyph-map", Some(&ctx.full))];
+    if let Some(m) = &extra {
+        cfgs = vec![("given glyph map", Some(m))];
+    }
+    for (cfg, gm) in cfgs {
         println!("=== {cfg}");
         match guarded(|| do_parse(&case, gm)) {
             Ok(Ok((tree, diags))) => {
@@ -1514,9 +1894,25 @@ struct Shrinker<'a> {
     cut_short: u64,
     /// hang fragment -> "parse" | "validate"
     hang_stage: HashMap<String, &'static str>,
+    /// the glyph maps of the input being shrunk (candidates are run with the same ones)
+    maps: Option<Vec<Option<Vec<String>>>>,
 }
 
 impl Shrinker<'_> {
+    fn mk(&self, text: String) -> Case {
+        let mut c = Case::plain(text);
+        c.maps = self.maps.clone();
+        c
+    }
+
+    /// key of `minimal`: fragments are only comparable under the same glyph maps
+    fn mkey(&self, sig: &str) -> String {
+        match &self.maps {
+            None => sig.to_string(),
+            m => format!("{sig}\u{0}{}", maps_tag(m)),
+        }
+    }
+
     fn out_of_time(&self) -> bool {
         Instant::now() >= self.deadline
     }
@@ -1553,7 +1949,7 @@ impl Shrinker<'_> {
                 *budget -= cands.len() as i64;
                 let res = vcore::par_for(cands.len(), self.threads, |i| {
                     self.prober
-                        .probe(&Case::plain(cands[i].concat()), self.fast_timeout_ms)
+                        .probe(&self.mk(cands[i].concat()), self.fast_timeout_ms)
                         .has(sig)
                 });
                 let good: Vec<usize> = (0..cands.len()).filter(|i| res[*i]).collect();
@@ -1566,7 +1962,7 @@ impl Shrinker<'_> {
                     }
                     let all: Vec<String> = (0..len).filter(|k| keep[*k]).map(|k| cur[k].clone()).collect();
                     *budget -= 1;
-                    if !all.is_empty() && self.prober.probe(&Case::plain(all.concat()), self.fast_timeout_ms).has(sig) {
+                    if !all.is_empty() && self.prober.probe(&self.mk(all.concat()), self.fast_timeout_ms).has(sig) {
                         cur = all;
                         continue 'outer;
                     }
@@ -1596,7 +1992,7 @@ impl Shrinker<'_> {
         pending.dedup();
         loop {
             // a known minimal text is obtainable by deletions
-            let frags: Vec<(String, String)> = self.minimal.get(sig).cloned().unwrap_or_default();
+            let frags: Vec<(String, String)> = self.minimal.get(&self.mkey(sig)).cloned().unwrap_or_default();
             pending.retain(|t| match frags.iter().find(|(f, _)| is_subsequence(f, t)) {
                 Some((f, d)) => {
                     out.insert((*t).clone(), Shrunk::To(f.clone(), d.clone()));
@@ -1627,7 +2023,7 @@ impl Shrinker<'_> {
                     }
                 }
                 let res = vcore::par_for(cands.len(), self.threads, |i| {
-                    self.prober.probe(&Case::plain(cands[i].1.clone()), self.fast_timeout_ms).has(sig)
+                    self.prober.probe(&self.mk(cands[i].1.clone()), self.fast_timeout_ms).has(sig)
                 });
                 let mut done: HashSet<usize> = HashSet::new();
                 for ((pi, _, fi), ok) in cands.iter().zip(res) {
@@ -1666,7 +2062,7 @@ impl Shrinker<'_> {
     /// A smaller text that still fails with `sig` (deletions, then canonical tokens),
     /// 1-minimal unless cut short, with the detail of its own run.
     fn shrink(&mut self, text: &str, sig: &str) -> Shrunk {
-        if let Some(frags) = self.minimal.get(sig) {
+        if let Some(frags) = self.minimal.get(&self.mkey(sig)) {
             // a fragment already verified to fail this way and obtainable from `text` by
             // deletions is a valid result of shrinking `text`
             if let Some((f, d)) = frags.iter().find(|(f, _)| is_subsequence(f, text)) {
@@ -1717,7 +2113,7 @@ impl Shrinker<'_> {
             }
             budget -= cands.len() as i64;
             let res = vcore::par_for(cands.len(), self.threads, |i| {
-                self.prober.probe(&Case::plain(cands[i].clone()), self.fast_timeout_ms).has(sig)
+                self.prober.probe(&self.mk(cands[i].clone()), self.fast_timeout_ms).has(sig)
             });
             match res.iter().position(|ok| *ok) {
                 Some(i) => {
@@ -1732,7 +2128,7 @@ impl Shrinker<'_> {
         }
         // the candidate runs had a short deadline: confirm with the full one
         // (for a hang, the parse-only run that names the stage goes alongside)
-        let shrunk = Case::plain(cur.clone());
+        let shrunk = self.mk(cur.clone());
         let (mut pr, parse_only) = std::thread::scope(|sc| {
             let h = (sig == "hang").then(|| sc.spawn(|| self.prober.run_raw(&shrunk, true, CASE_TIMEOUT_MS)));
             let pr = self.prober.verify(&shrunk);
@@ -1744,13 +2140,14 @@ impl Shrinker<'_> {
         if !pr.has(sig) {
             self.cut_short += 1;
             cur = text.to_string();
-            pr = self.prober.verify(&Case::plain(cur.clone()));
+            pr = self.prober.verify(&self.mk(cur.clone()));
             if !pr.has(sig) {
                 return Shrunk::NotReproduced;
             }
         }
         let detail = pr.fails.iter().find(|(s, _)| s == sig).map(|(_, d)| d.clone()).unwrap_or_default();
-        self.minimal.entry(sig.to_string()).or_default().push((cur.clone(), detail.clone()));
+        let mkey = self.mkey(sig);
+        self.minimal.entry(mkey).or_default().push((cur.clone(), detail.clone()));
         Shrunk::To(cur, detail)
     }
 }
@@ -1790,6 +2187,8 @@ struct SpaceResult {
     abnormal: Vec<(u64, Abnormal)>,
     slow: (u64, u64),
     chains: Vec<(String, String)>,
+    /// sums of the workers' counters
+    ctr: BTreeMap<String, u64>,
     wall_s: f64,
 }
 
@@ -1825,6 +2224,7 @@ fn run_space(space: &Space, deadline: Instant) -> SpaceResult {
         abnormal: r.abnormal.into_iter().map(|(pos, ab)| (permute(pos, stride_for(total), total), ab)).collect(),
         slow: (0, 0),
         chains: vec![],
+        ctr: BTreeMap::new(),
         wall_s: 0.0,
     };
     for c in &r.chunks {
@@ -1854,6 +2254,11 @@ fn run_space(space: &Space, deadline: Instant) -> SpaceResult {
                 out.details
                     .entry(sig.clone())
                     .or_insert_with(|| det.as_str().unwrap_or("").to_string());
+            }
+        }
+        if let Some(m) = c.get("ctr").and_then(|f| f.as_object()) {
+            for (k, v) in m {
+                *out.ctr.entry(k.clone()).or_default() += v.as_u64().unwrap_or(0);
             }
         }
         if let Some(a) = c.get("chains").and_then(|f| f.as_array()) {
@@ -1954,14 +2359,15 @@ fn main() {
     }
     let tier = args.tier;
     let max_depth = max_include_depth();
-    let (n_a, n_aw, m_b) = match tier {
-        Tier::Quick => (4, 3, 4),
-        Tier::Thorough => (5, 4, 5),
+    let (n_a, n_aw, m_b, k_e) = match tier {
+        Tier::Quick => (4, 3, 4, 5),
+        Tier::Thorough => (5, 4, 5, 7),
     };
     let env_n = |k: &str, d: usize| std::env::var(k).ok().and_then(|s| s.parse().ok()).unwrap_or(d);
-    let (n_a, n_aw, m_b) = (env_n("C13_N", n_a), env_n("C13_NW", n_aw), env_n("C13_M", m_b));
+    let (n_a, n_aw, m_b, k_e) = (env_n("C13_N", n_a), env_n("C13_NW", n_aw), env_n("C13_M", m_b), env_n("C13_K", k_e));
     let spaces = vec![
         Space::Graphs { max_depth },
+        Space::Operand { k: k_e },
         Space::Edits(Corpus::load(tier == Tier::Thorough)),
         Space::Chars { m: m_b },
         Space::Seq { n: n_aw, wrapped: true },
@@ -2042,18 +2448,19 @@ fn main() {
         fast_timeout_ms: 300,
         cut_short: 0,
         hang_stage: HashMap::new(),
+        maps: None,
     };
     // the hangs are resolved together (every confirming run of a hang costs a deadline)
     let hang_texts: Vec<String> = failing
         .iter()
-        .filter(|f| f.sig == "hang" && f.case.is_plain())
+        .filter(|f| f.sig == "hang" && f.case.is_plain() && f.case.maps.is_none())
         .map(|f| f.case.root_text().to_string())
         .collect();
     let hang_results = shr.resolve_many(&hang_texts, "hang");
     // panic signature (stage, file, line) -> key of its class, fixed by its shortest example
     let mut panic_keys: HashMap<String, String> = HashMap::new();
     // (key, example text, signature) of panic classes whose example is still to be shrunk
-    let mut to_polish: Vec<(String, String, String)> = vec![];
+    let mut to_polish: Vec<(String, Case, String)> = vec![];
     // key -> (examined cases, what, replay)
     let mut classes: BTreeMap<String, (u64, String, Value)> = BTreeMap::new();
     for f in &failing {
@@ -2091,14 +2498,17 @@ fn main() {
             };
             panic_keys.insert(f.sig.clone(), key.clone());
             if !classes.contains_key(&key) {
-                to_polish.push((key.clone(), f.case.root_text().to_string(), f.sig.clone()));
+                to_polish.push((key.clone(), f.case.clone(), f.sig.clone()));
             }
             (key, format!("input {:?}: {}", trunc(f.case.root_text(), 120), f.detail), f.case.to_json())
         } else {
-            let shrunk = if f.sig == "hang" {
+            let shrunk = if f.sig == "hang" && f.case.maps.is_none() {
                 hang_results.get(f.case.root_text()).cloned().unwrap_or(Shrunk::OutOfTime)
             } else {
-                shr.shrink(f.case.root_text(), &f.sig)
+                shr.maps = f.case.maps.clone();
+                let r = shr.shrink(f.case.root_text(), &f.sig);
+                shr.maps = None;
+                r
             };
             match shrunk {
                 Shrunk::NotReproduced => {
@@ -2112,7 +2522,7 @@ fn main() {
                     f.case.to_json(),
                 ),
                 Shrunk::To(frag, detail) => {
-                    let shrunk = Case::plain(frag.clone());
+                    let shrunk = f.case.with_text(frag.clone());
                     let key = if f.sig == "hang" {
                         // one extra run per fragment tells parsing from validation
                         let st = *shr.hang_stage.entry(frag.clone()).or_insert_with(|| {
@@ -2136,15 +2546,18 @@ fn main() {
         classes.insert(key, (1, what, rj));
     }
     // smaller examples for the panic classes, with whatever time is left
-    for (key, text, sig) in &to_polish {
-        if let Shrunk::To(frag, detail) = shr.shrink(text, sig) {
+    for (key, case, sig) in &to_polish {
+        shr.maps = case.maps.clone();
+        let shrunk = shr.shrink(case.root_text(), sig);
+        shr.maps = None;
+        if let Shrunk::To(frag, detail) = shrunk {
             if let Some(e) = classes.get_mut(key) {
                 let keep: Vec<(String, Value)> = ["space", "signature", "found_as"]
                     .iter()
                     .map(|k| (k.to_string(), e.2[*k].clone()))
                     .collect();
                 e.1 = format!("input {:?}: {detail}", trunc(&frag, 120));
-                e.2 = Case::plain(frag).to_json();
+                e.2 = case.with_text(frag).to_json();
                 for (k, v) in keep {
                     e.2[k] = v;
                 }
@@ -2205,6 +2618,13 @@ fn main() {
                 o["token_positions"] = json!(c.tokens());
                 o["edits"] = json!(if c.all_ops { "none, delete, duplicate, swap-adjacent, replace by each of the 28 lexemes" } else { "none, delete, duplicate, swap-adjacent" });
             }
+            Space::Operand { k } => {
+                o["max_operand_chars"] = json!(k);
+                o["operand_alphabet"] = json!(OPERAND_CHARS);
+                o["operands"] = json!(pow_sum(OPERAND_CHARS.len() as u64, *k));
+                o["templates"] = json!(OPERAND_TEMPLATES);
+                o["glyph_maps"] = json!(maps_tag(&Some(operand_maps())));
+            }
             Space::Graphs { max_depth } => {
                 o["digraphs"] = json!(512);
                 o["variants_per_digraph"] = json!("include at top level / inside a feature block x each statement once / twice");
@@ -2220,6 +2640,7 @@ fn main() {
                 o["shallowest_rejected_chain"] = json!(first_rejected);
             }
         }
+        o["name_or_range"] = json!(r.ctr);
         per_space.insert(r.name.to_string(), o);
         if r.total > 0 {
             for i in [0, r.total / 2, r.total - 1] {
@@ -2229,9 +2650,16 @@ fn main() {
         }
     }
     rep.set("evaluations", evaluations);
-    rep.set("front_end_runs", evaluations * 2);
+    rep.set("front_end_runs", results.iter().map(|r| r.ctr.get("front_end_runs").copied().unwrap_or(0)).sum::<u64>());
+    let mut nor: BTreeMap<String, u64> = BTreeMap::new();
+    for r in &results {
+        for (k, v) in &r.ctr {
+            *nor.entry(k.clone()).or_default() += v;
+        }
+    }
+    rep.set("name_or_range_totals", json!(nor));
     rep.set("distinct_nontrivial", nontrivial);
-    rep.set("rule", "every enumerated input is parsed twice (without and with a glyph map); a tree parsed with the glyph map (fea-rs/test-data/simple_glyph_order.txt plus a-b, a-b-c, 0, s, test, é) and free of errors is validated with that map, one parsed without is validated with an empty map and with that map. Non-trivial = the tree parsed without a glyph map has a child node of the root not flagged as error, or at least 2 tokens that are not whitespace/comment. Distinct: a and aw inputs are distinct by construction (injective decoding, aw has a wrapper no a-string has); b strings that are empty or a single a-lexeme are not counted; c and d inputs are counted by the 64-bit hash of their text(s), and c texts that also occur in a or b are not counted");
+    rep.set("rule", "every input of a, aw, b, c, d is parsed twice (without and with a glyph map), every input of e five times (glyph maps {a,b}, {a,b,a-b}, {a,b,a-,-a}, a larger one with a-b, b-a, a-, -a, a.b, a1, a-a-a and CIDs, and without one); a tree parsed with the glyph map (fea-rs/test-data/simple_glyph_order.txt plus a-b, a-b-c, 0, s, test, é) and free of errors is validated with that map, one parsed without is validated with an empty map and with that map. Non-trivial = the tree parsed without a glyph map has a child node of the root not flagged as error, or at least 2 tokens that are not whitespace/comment. Distinct: a and aw inputs are distinct by construction (injective decoding, aw has a wrapper no a-string has); b strings that are empty or a single a-lexeme are not counted; c and d inputs are counted by the 64-bit hash of their text(s), and c texts that also occur in a or b are not counted; e inputs are distinct by construction (template x operand, no a/aw/b text has their form) and count as non-trivial when the tree parsed without a glyph map has a GlyphNameOrRange token or some tree has a GlyphRange node. name_or_range counters: every GlyphNameOrRange token of the tree parsed without a glyph map, per run with a glyph map, is judged by the oracle's own model of the rule (known name: one GlyphName token; exactly one cut at a hyphen into two known names: GlyphRange node of name, hyphen, name spelling the token; otherwise unchanged under an error diagnostic) and every other token must be identical with and without the glyph map");
     rep.set("spaces", Value::Object(per_space));
     rep.set("samples", samples);
     rep.set("exhaustive", exhaustive);
@@ -2244,6 +2672,8 @@ fn main() {
     rep.set("shrinks_cut_short", shr.cut_short);
     rep.set("per_case_deadline_ms", CASE_TIMEOUT_MS);
     rep.set("address_space_cap_mib", MEM_CAP >> 20);
+    rep.assume("the name-or-range model is the one of the feature file specification as the front end documents it in its own diagnostics: a hyphenated name that is a glyph is that glyph, else a range if exactly one hyphen cuts it into two glyphs, else an error ('neither a known glyph or a range', 'multiple possible glyph ranges'); glyph maps of e are tiny and have no .notdef");
+    rep.assume("token and node positions (Token::range, Node::range) are checked against the running sum of token lengths only for inputs without resolved includes");
     rep.assume("inputs longer than the stated token / character bounds, lexemes and characters outside the two alphabets, and multi-edit mutations of the corpus files are not covered");
     rep.assume("a case that does not return within 2 s of CPU time of its thread (15 s of wall time if it is not using CPU) or needs more than 2 GiB of address space counts as non-terminating; while shrinking, candidates get a shorter CPU deadline and the result is confirmed with the full one");
     rep.assume("in sub-spaces a, aw, b, c the resolver knows only the root source, so include statements there exercise the unresolved-include path; resolved includes are covered by sub-space d only (3 files, each include at most twice per file, chains up to MAX_INCLUDE_DEPTH+2)");
